@@ -25,6 +25,9 @@ Section Frame.
   Hypothesis R_amb : forall c b, R c (set_amb c b).
   Hypothesis R_ambc : forall c b, R c (set_ambc c b).
   Hypothesis R_nested : forall td c, Rres R c (nested td c).
+  (* a callback may assign the state itself (AWrite): either the relation ignores the stored state, or the
+     behaviour has no such callback *)
+  Hypothesis R_write : (forall c f, R c (set_field c f)) \/ no_writes beh.
 
   Lemma Rres_bind {A B} (c : cfg) (r : res A) (k : cfg -> A -> res B) :
     Rres R c r -> (forall c' a, r = Ok c' a -> Rres R c' (k c' a)) -> Rres R c (bind r k).
@@ -36,21 +39,26 @@ Section Frame.
   Lemma Rres_pre {A} (c c0 : cfg) (r : res A) : R c c0 -> Rres R c0 r -> Rres R c r.
   Proof. intros H Hr. destruct r; simpl in *; eauto. Qed.
 
-  Lemma run_acts_R : forall l c, Rres R c (run_acts nested l c).
+  Lemma run_acts_R : forall l c,
+    ((forall c f, R c (set_field c f)) \/ existsb is_write l = false) -> Rres R c (run_acts nested l c).
   Proof.
-    induction l as [|a l IH]; intros c; simpl; auto.
-    destruct a as [e tag|x]; simpl; auto.
-    pose proof (R_nested {| td_ev := Some e; td_tag := tag |} c) as Hn.
-    destruct (nested _ c) as [c' v|c' x|]; simpl in *; auto.
-    - eapply Rres_pre; [|apply IH]. eauto.
-    - eauto.
+    induction l as [|a l IH]; intros c W; simpl; auto.
+    destruct a as [e tag|x|s]; simpl; auto.
+    - assert (W' : (forall c f, R c (set_field c f)) \/ existsb is_write l = false)
+        by (destruct W as [W|W]; [left; exact W|right; exact W]).
+      pose proof (R_nested {| td_ev := Some e; td_tag := tag |} c) as Hn.
+      destruct (nested _ c) as [c' v|c' x|]; simpl in *; auto.
+      + eapply Rres_pre; [|apply IH; exact W']. eauto.
+      + eauto.
+    - destruct W as [W|W]; [|simpl in W; discriminate].
+      eapply Rres_pre; [apply W|]. apply IH. left; exact W.
   Qed.
 
   Lemma run_cb_R : forall g x cb c, Rres R c (run_cb beh nested g x cb c).
   Proof.
     intros g x cb c. unfold run_cb.
     apply Rres_bind.
-    - eapply Rres_pre; [|apply run_acts_R]. eauto.
+    - eapply Rres_pre; [|apply run_acts_R; destruct R_write as [W|W]; [left; exact W|right; apply W]]. eauto.
     - intros c' a _. simpl. auto.
   Qed.
 
@@ -172,33 +180,33 @@ Section SameLock.
   Definition SL {A} (f : cfg -> res A) := forall c, Rres same_lock c (f c).
 
   Lemma sl_run_acts l : SL (run_acts nested l).
-  Proof. intro c. apply run_acts_R; first [exact sl_refl | exact sl_trans | exact nested_lock | (intros; reflexivity)]. Qed.
+  Proof. intro c. apply run_acts_R; first [exact sl_refl | exact sl_trans | exact nested_lock | (intros; reflexivity) | (left; intros; reflexivity)]. Qed.
   Lemma sl_run_cb g x cb : SL (run_cb beh nested g x cb).
-  Proof. intro c. apply run_cb_R; first [exact sl_refl | exact sl_trans | exact nested_lock | (intros; reflexivity)]. Qed.
+  Proof. intro c. apply run_cb_R; first [exact sl_refl | exact sl_trans | exact nested_lock | (intros; reflexivity) | (left; intros; reflexivity)]. Qed.
   Lemma sl_run_chain g x cbs : SL (run_chain beh nested g x cbs).
-  Proof. intro c. apply run_chain_R; first [exact sl_refl | exact sl_trans | exact nested_lock | (intros; reflexivity)]. Qed.
+  Proof. intro c. apply run_chain_R; first [exact sl_refl | exact sl_trans | exact nested_lock | (intros; reflexivity) | (left; intros; reflexivity)]. Qed.
   Lemma sl_run_wrapper g x w : SL (run_wrapper beh nested g x w).
-  Proof. intro c. apply run_wrapper_R; first [exact sl_refl | exact sl_trans | exact nested_lock | (intros; reflexivity)]. Qed.
+  Proof. intro c. apply run_wrapper_R; first [exact sl_refl | exact sl_trans | exact nested_lock | (intros; reflexivity) | (left; intros; reflexivity)]. Qed.
   Lemma sl_call_list g x ws : SL (call_list beh nested g x ws).
-  Proof. intro c. apply call_list_R; first [exact sl_refl | exact sl_trans | exact nested_lock | (intros; reflexivity)]. Qed.
+  Proof. intro c. apply call_list_R; first [exact sl_refl | exact sl_trans | exact nested_lock | (intros; reflexivity) | (left; intros; reflexivity)]. Qed.
   Lemma sl_call_group g x ws : SL (call_group beh nested rm g x ws).
-  Proof. intro c. apply call_group_R; first [exact sl_refl | exact sl_trans | exact nested_lock | (intros; reflexivity)]. Qed.
+  Proof. intro c. apply call_group_R; first [exact sl_refl | exact sl_trans | exact nested_lock | (intros; reflexivity) | (left; intros; reflexivity)]. Qed.
   Lemma sl_all_list g x ws : SL (all_list beh nested g x ws).
-  Proof. intro c. apply all_list_R; first [exact sl_refl | exact sl_trans | exact nested_lock | (intros; reflexivity)]. Qed.
+  Proof. intro c. apply all_list_R; first [exact sl_refl | exact sl_trans | exact nested_lock | (intros; reflexivity) | (left; intros; reflexivity)]. Qed.
   Lemma sl_all_list_async g x ws : SL (all_list_async beh nested g x ws).
-  Proof. intro c. apply all_list_async_R; first [exact sl_refl | exact sl_trans | exact nested_lock | (intros; reflexivity)]. Qed.
+  Proof. intro c. apply all_list_async_R; first [exact sl_refl | exact sl_trans | exact nested_lock | (intros; reflexivity) | (left; intros; reflexivity)]. Qed.
   Lemma sl_all_group g x ws : SL (all_group beh nested rm g x ws).
-  Proof. intro c. apply all_group_R; first [exact sl_refl | exact sl_trans | exact nested_lock | (intros; reflexivity)]. Qed.
+  Proof. intro c. apply all_group_R; first [exact sl_refl | exact sl_trans | exact nested_lock | (intros; reflexivity) | (left; intros; reflexivity)]. Qed.
   Lemma sl_activate_pre t x : SL (activate_pre beh nested rm t x).
-  Proof. intro c. apply activate_pre_R; first [exact sl_refl | exact sl_trans | exact nested_lock | (intros; reflexivity)]. Qed.
+  Proof. intro c. apply activate_pre_R; first [exact sl_refl | exact sl_trans | exact nested_lock | (intros; reflexivity) | (left; intros; reflexivity)]. Qed.
   Lemma sl_activate_post t x : SL (activate_post beh nested rm t x).
-  Proof. intro c. apply activate_post_R; first [exact sl_refl | exact sl_trans | exact nested_lock | (intros; reflexivity)]. Qed.
+  Proof. intro c. apply activate_post_R; first [exact sl_refl | exact sl_trans | exact nested_lock | (intros; reflexivity) | (left; intros; reflexivity)]. Qed.
   Lemma sl_activate t td : SL (activate beh nested rm t td).
-  Proof. intro c. apply activate_R; first [exact sl_refl | exact sl_trans | exact nested_lock | (intros; reflexivity)]. Qed.
+  Proof. intro c. apply activate_R; first [exact sl_refl | exact sl_trans | exact nested_lock | (intros; reflexivity) | (left; intros; reflexivity)]. Qed.
   Lemma sl_try_candidates cands e s td : SL (try_candidates beh nested rm cands e s td).
-  Proof. intro c. apply try_candidates_R; first [exact sl_refl | exact sl_trans | exact nested_lock | (intros; reflexivity)]. Qed.
+  Proof. intro c. apply try_candidates_R; first [exact sl_refl | exact sl_trans | exact nested_lock | (intros; reflexivity) | (left; intros; reflexivity)]. Qed.
   Lemma sl_trigger td : SL (trigger beh nested rm td).
-  Proof. intro c. apply trigger_R; first [exact sl_refl | exact sl_trans | exact nested_lock | (intros; reflexivity)]. Qed.
+  Proof. intro c. apply trigger_R; first [exact sl_refl | exact sl_trans | exact nested_lock | (intros; reflexivity) | (left; intros; reflexivity)]. Qed.
 End SameLock.
 
 (* ---------- instance 2: field and lock unchanged, queue only grows at the back ---------- *)
